@@ -26,6 +26,7 @@ import (
 	"github.com/prometheus/common/model"
 	"gopkg.in/yaml.v3"
 
+	"github.com/cloudflare/pint/internal/diags"
 	"github.com/cloudflare/pint/internal/parser"
 )
 
@@ -197,6 +198,28 @@ func hasLoneCR(content []byte) bool {
 	return false
 }
 
+// coqExpandCases: the real diags.LineRange.Expand on the line ranges of this file's problems plus adversarial ranges
+// (empty, inverted by one, inverted by more: `make([]int, 0, Last-First+1)` panics on a negative capacity).
+func coqExpandCases(id int, observed [][2]int) string {
+	k := id%9 + 1
+	pairs := append([][2]int{{k, k}, {k, k + id%4}, {k, k - 1}, {k, k - 2}, {k + id%3, 0}}, observed...)
+	items := make([]string, 0, len(pairs))
+	for _, p := range pairs {
+		obs := "None"
+		func() {
+			defer func() { recover() }()
+			l := diags.LineRange{First: p[0], Last: p[1]}.Expand()
+			xs := make([]string, 0, len(l))
+			for _, x := range l {
+				xs = append(xs, fmt.Sprintf("(%d)%%Z", x))
+			}
+			obs = "(Some " + coqList(xs) + ")"
+		}()
+		items = append(items, fmt.Sprintf("((%d)%%Z, (%d)%%Z, %s)", p[0], p[1], obs))
+	}
+	return coqList(items)
+}
+
 type c02Fail struct {
 	What    string `json:"what"`
 	Variant string `json:"variant"`
@@ -245,6 +268,7 @@ func runC02One(args []string) int {
 	}
 	o.Nontriv = len(fs.Groups) > 0 || len(fr.Groups) > 0 || fs.Error.Err != nil || fr.Error.Err != nil
 	obsS, obsR := "None", "None"
+	var expandPairs [][2]int
 	for _, v := range c02Variants {
 		v.Names = names
 		res := runPipeline(file, v.Strict, v.Schema, v.Names, 30*time.Second)
@@ -261,8 +285,16 @@ func runC02One(args []string) int {
 					addFail("renderer "+k+" failed: "+e, v.String(), !v.Strict, res.Problems)
 				}
 			}
+			if res.TotalLines >= 0 && res.TotalLines != nl {
+				addFail(fmt.Sprintf("in-process: File.TotalLines = %d but the file has %d lines (outside the file)", res.TotalLines, nl), v.String(), !v.Strict, nil)
+			}
 			for _, w := range res.lineViolations(nl) {
 				addFail("in-process: "+w, v.String(), !v.Strict, res.Problems)
+			}
+			for _, p := range res.Problems {
+				if len(expandPairs) < 4 {
+					expandPairs = append(expandPairs, [2]int{p.First, p.Last})
+				}
 			}
 			nErr, nRep := 0, 0
 			for _, e := range res.Entries {
@@ -288,7 +320,8 @@ func runC02One(args []string) int {
 		}
 	}
 	if term != "" {
-		o.Term = fmt.Sprintf("{| c_base := %s;\n c_entries_strict := %s;\n c_entries_relaxed := %s;\n c_lone_cr := %s |}", term, obsS, obsR, coqBool(hasLoneCR(content)))
+		o.Term = fmt.Sprintf("{| c_base := %s;\n c_entries_strict := %s;\n c_entries_relaxed := %s;\n c_lone_cr := %s;\n c_expand := %s |}",
+			term, obsS, obsR, coqBool(hasLoneCR(content)), coqExpandCases(id, expandPairs))
 	} else {
 		o.Hist = append(o.Hist, "skipped:forest-too-large")
 	}
@@ -408,7 +441,9 @@ func runC02(args []string) int {
 			of := oracleFail{ID: fmt.Sprint(id), What: what, Case: map[string]any{"content": it.content, "class": it.class, "variant": variant, "lines": nl, "observed": extra}}
 			// classes repaired in pint (f44c1ab, da58998, 5f8fd57, aba0d51, 4008951, 147313f) are no longer known
 			// findings: a recurrence is reported as a violation.  Open: line numbers of files with lone CR breaks.
-			if loneCR && strings.Contains(what, "outside the file") {
+			// (line numbers beyond the file, and ranges inverted by the mix of yaml lines and LF lines, which the JSON
+			// line expansion answers with a makeslice panic)
+			if loneCR && (strings.Contains(what, "outside the file") || strings.Contains(what, "makeslice: cap out of range")) {
 				of.Known = "C02-lone-cr"
 			}
 			o.fails = append(o.fails, of)
